@@ -25,13 +25,19 @@ HEADER = ("From Coq Require Import ZArith List Bool.\nFrom SK Require Import Lib
 GF = [1.1, 1.2, 1.25, 4 / 3, 1.5, 1.9, 2.0]
 
 
+def fit_frame(c, p):
+    """training frame of another length than the data predicted on (seeded by the case, always admissible)"""
+    extra = (c["n"] * 7 + c["m"]) % 5
+    return pd.DataFrame(np.zeros((c["n"] + extra, p)))
+
+
 def run_impl(c, thr):
     from skchange.change_detectors import SeededBinarySegmentation
     cols = c["score"]
     fn = lambda j, s, k, e: cols[j](s, k, e)  # noqa
     X = pd.DataFrame(np.zeros((c["n"], len(cols))))
     d = SeededBinarySegmentation(change_score=ts.FnChangeScore(fn, len(cols)), threshold_scale=1.0,
-                                 min_segment_length=c["m"], max_interval_length=c["maxlen"], growth_factor=c["g"]).fit(X)
+                                 min_segment_length=c["m"], max_interval_length=c["maxlen"], growth_factor=c["g"]).fit(fit_frame(c, len(cols)))
     d.threshold_ = float(thr)
     cpts = [int(v) for v in d.predict(X)["ilocs"]]
     sc = d.scores
